@@ -13,6 +13,8 @@
 (*   o.intact     results delivered before terminate() are still there and unchanged      *)
 (*   o.again_ok   a second terminate() returned                                           *)
 (*   o.exit_callbacks / o.nworkers_seen  exit callbacks that ran / worker processes       *)
+(*   o.settled    every worker was inside a task (or the scenario is the idle one) when    *)
+(*                terminate() was called                                                   *)
 EXTENDS Integers, Sequences, TLC, Json, IOUtils
 CONSTANTS GuardTenths,       \* a join that takes this long has waited out a worker's 30 s guard
           TermTenths,        \* bound for terminate()
@@ -41,5 +43,5 @@ TerminateReturns == IsT => (o.returned /\ o.secs10 <= TermTenths /\ o.again_ok)
 NoWorkerSurvives == (IsT /\ o.returned) => (o.alive = 0 /\ o.threads = 0)
 ResultsIntact == IsT => o.intact
 ExitCallbacksRan == (IsT /\ o.returned) => (o.exit_callbacks >= o.nworkers_seen
-                                             \/ (TolExitRace /\ sc.kind = "terminate" /\ sc.situation = "idle"))
+                                             \/ (TolExitRace /\ sc.kind = "terminate" /\ (sc.situation = "idle" \/ ~o.settled)))
 =============================================================================
